@@ -38,9 +38,12 @@ constexpr auto round_check(T const x) noexcept -> T
             !is_finite(x) ? x
                           :
                           // signed-zero cases
-            etl::numeric_limits<T>::epsilon() > abs(x) ? x
-                                                       :
-                                                       // else
+            x == T(0) ? x
+                      :
+                      // no fractional part left; also keeps the conversion to llint_t in range
+            abs(x) >= T(1) / etl::numeric_limits<T>::epsilon() ? x
+                                                               :
+                                                               // else
             sgn(x) * round_int(abs(x))
     );
 }
